@@ -302,8 +302,12 @@ class AsyncPolicy:
                 record_success(ctx)
             elif outcome.stop_reason == StopReason.ABORTED:
                 record_cancel(ctx)
-            elif isinstance(outcome.last_exception, CircuitOpenError):
-                # Rejection by a nested breaker: not counted, exactly as in call().
+            elif outcome.stop_reason != StopReason.SCHEDULED and isinstance(
+                outcome.last_exception, CircuitOpenError
+            ):
+                # Rejection by a nested breaker that call() would re-raise: not counted,
+                # exactly as in call(). (A deferred run is reported as RetryExhaustedError
+                # by call() and recorded as a failure there, so it is here too.)
                 record_cancel(ctx)
             else:
                 klass = outcome.last_class or ErrorClass.UNKNOWN
